@@ -100,6 +100,9 @@ var rawOrPre = map[string]bool{"script": true, "style": true, "pre": true, "text
 // c19Meaning projects a template body to what the property calls its meaning.
 func c19Meaning(body string) (toks []string, must []string, doctype string) {
 	nodes := htmlcmp.Parse(body)
+	if strings.Contains(strings.ToLower(body), "</html>") {
+		nodes = htmlcmp.ParseDocument(body) // tag names are case-insensitive: <HTML> ... </HTML> is a document
+	}
 	var text strings.Builder
 	flush := func() {
 		t := strings.Join(strings.FieldsFunc(text.String(), htmlcmp.IsHTMLSpace), "")
@@ -449,6 +452,14 @@ func c19Generate(tier string, emit func(src string)) {
 		`<!DOCTYPE html PUBLIC "-//W3C//DTD HTML 4.01//EN" "http://www.w3.org/TR/html4/strict.dtd"><html><body><p>a</p></body></html>`,
 		"---\r\ntitle: x\r\nlist:\r\n  - a\r\n---\r\n<p>a</p>\r\n", "---\r\ntitle: x\r\n---\r\n<!DOCTYPE html>\r\n<html>\r\n<body>\r\n<p>a</p>\r\n</body>\r\n</html>\r\n",
 		"<!DOCTYPE html PUBLIC \"-//W3C//DTD XHTML 1.0 Strict//EN\"\r\n  \"http://www.w3.org/TR/xhtml1/DTD/xhtml1-strict.dtd\">\r\n<html><body><p>a</p></body></html>", "<div>\r\n  <p>crlf text\r\n  more</p>\r\n</div>\r\n", "<pre>a\r\nb</pre>",
+		// raw-text elements (their content is not markup and has no character references) in every kind of parent
+		`<p>Map: <iframe src="/map">No frames &amp; no <b>map</b> here</iframe></p>`, `<span>x <iframe>a &lt; b</iframe></span>`, `<td><iframe>&amp;amp;</iframe> t</td>`, `<div><iframe>a<b>c</b> &amp;</iframe></div>`,
+		`<p>n <noscript>&lt;img src=x&gt; &amp;</noscript> m</p>`, `<h2>t <xmp>a<b>&amp;</xmp></h2>`, `<label>l <noembed>&lt;p&gt;</noembed></label>`, `<a href="#">k<script>if (a < b && c) {}</script></a>`, `<li>i <style>a > b { content: "&amp;" }</style></li>`,
+		// names that are void in HTML only, table fragments behind several comments or with CR / FF after the tag name, textarea inside pre, upper-case documents
+		`<svg><link>x</link><source>y</source></svg>`, `<p>a <svg><param>k</param></svg> b</p>`, `<math><mi>a</mi><embed>e</embed></math>`, `<svg><a><link>in</link></a></svg>`,
+		"<!-- a --><!-- b -->\n<tr><td>x</td></tr>", "<!-- a -->\n<!-- b --><td>x</td>", "<td\r\n  class=\"a\">x</td>", "<tr\r><td>x</td></tr>", "<tr\f class=\"a\"><td>x</td></tr>", "<tr/><td>x</td>", "<!-- c --><tbody><tr><td>x</td></tr></tbody>",
+		"<pre><textarea>\n\nx</textarea></pre>", "<pre>a <textarea>\n\ny</textarea> b</pre>", "<pre><pre>\n\nz</pre></pre>",
+		"<HTML><BODY><P>a</P></BODY></HTML>", "<Html lang=\"en\"><Head><Title>t</Title></Head><Body><p>x</p></Body></Html>",
 		`<p>{{ a &amp;lt b }}</p>`, `<p>{{ a &amp;amp b }} &amp;amp c</p>`, `<p>{{ a &amp;&amp; b &amp;y }}</p>`,
 	} {
 		emit(src)
